@@ -77,9 +77,34 @@ template<int H> void run_first(const char* hn) {
   m.process_event(leave()); m.process_event(resume());
   report(std::string(hn) + ".first-entry-by-history-event.remembered", cur(s,0) == initA && cur(s,1) == initB, "C08,C13", "A=" + std::to_string(cur(s,0)) + " B=" + std::to_string(cur(s,1)));
 }
+// first-ever activation of the submachine through an EXPLICIT entry (no plain entry before): the machine must count as entered -
+// introspection sees its substates (C03), and leaving it exits them
+template<int H> struct TopX_ : state_machine_def<TopX_<H>> {
+  typedef SubBE<H> Sub;
+  struct Out : state<> {};
+  typedef Out initial_state;
+  struct transition_table : mpl::vector< Row<Sub,leave,Out,none,none>, Row<Out,plain,Sub,none,none>,
+    Row<Out,plain_x,typename Sub::template direct<typename Sub_<H>::A3>,none,none> > {};
+  template<class F,class Ev> void no_transition(Ev const&,F&,int){}
+};
+template<int H> void run_first_explicit(const char* hn) {
+  typedef BE<TopX_<H>> Top; typedef typename TopX_<H>::Sub Sub;
+  Top ref; ref.start(); ref.process_event(plain()); Sub& rs = ref.template get_state<Sub&>(); int initB = cur(rs,1); int a1 = cur(rs,0);
+  Top m; m.start(); m.process_event(plain_x()); Sub& s = m.template get_state<Sub&>();
+  bool ids = cur(s,0) != a1 && cur(s,1) == initB;
+#if IS_MP11
+  bool seen = s.template is_state_active<typename Sub_<H>::A3>() && s.template is_state_active<typename Sub_<H>::B1>() && m.template is_state_active<Sub>();
+  int visited = 0; s.template visit<msm::backmp11::visit_mode::active_non_recursive>([&visited](auto&){ ++visited; });
+  seen = seen && visited == 2;
+#else
+  bool seen = true;
+#endif
+  report(std::string(hn) + ".first-activation-by-explicit-entry", ids && seen, "C03,C09,C13", "A=" + std::to_string(cur(s,0)) + " B=" + std::to_string(cur(s,1)) + " introspection-agrees=" + std::to_string(seen));
+}
 int main(int argc, char** argv) {
   if (argc > 1) g_only = argv[1];
   run<H_NO>("no"); run<H_ALWAYS>("always"); run<H_SHALLOW>("shallow");
   run_first<H_NO>("no"); run_first<H_ALWAYS>("always"); run_first<H_SHALLOW>("shallow");
+  run_first_explicit<H_NO>("no"); run_first_explicit<H_ALWAYS>("always"); run_first_explicit<H_SHALLOW>("shallow");
   return finish();
 }
